@@ -9,6 +9,7 @@ CONSTANTS
   EventShapes = {}
   EvNames = {"EVA", "EVB"}
   Listeners = {"ok1", "ok2", "self", "other", "raise"}
+  SubmitKinds = {}
   Loose = TRUE
   Dev = {}
 CONSTRAINT Progress
